@@ -90,7 +90,7 @@ UNITS += [
 UNITS += [
     Unit(name="cache_remove_not_in_list", file=CA, anchor="pub fn remove_not_in_list(&self, tpe: FileType, list: &Vec<(Id, u32)>) -> RusticResult<()>", within="impl Cache {", ret_name="r",
          wrap_open="impl Cache {", wrap_close="}",
-         functions=["backend::cache::Cache::remove_not_in_list"],
+         functions=["backend::cache::Cache::remove_not_in_list"], optional_loops=True,
          rewrites=[MUT("remove_not_in_list"), R_LOG, R_LETCHAIN,
                    Rw("for (id, size) in list {", "for e in it: list.iter() { let (id, size) = (&e.0, &e.1);", why="Verus for-loop syntax; by-reference destructuring"),
                    Rw("for id in list_cache.keys() {", "let vkeys = list_cache.vkeys(); for id in it2: vkeys.iter() {", why="HashMap::keys -> key vector stub; Verus for-loop syntax"),
